@@ -171,6 +171,8 @@ def draw_mode(rnd):
         # full scales: 1 V, the probes' 0.6 V and 0.6 V / gain, and microvolt units (float32 cannot hold the grid there)
         m.update(exact=rnd.random() < 0.6, R=rnd.choice([1.0, 0.6, 1.2e-3 * 512, 1.2e-3, 7.5e-3] + ([1200.0] if dt == "f8" else [])),
                  mv=rnd.choice(MV_VECTOR if per_channel else MV_SCALAR))
+        if m["mv"] in ("np32", "f32") and m["R"] > 100:      # nor a single precision range
+            m["R"] = 1.2e-3 * 512
         if m["exact"]:
             m.update(fs=rnd.choice([1, 1, 2, 0.5, 4.0, 32768]), rate="both")
         else:
